@@ -3,6 +3,7 @@ package main
 // Assumed contracts for library functions (listed in evidence as trusted).
 
 import (
+	"strings"
 	"go/ast"
 	"go/constant"
 	"go/types"
@@ -102,7 +103,31 @@ func (x *Exec) callLibrary(s *State, fn *types.Func, recv *Term, args []*Term, c
 		}
 		return v, true
 	case "fmt.Fprintf", "fmt.Fprint", "fmt.Fprintln", "(io.Writer).Write", "(*bytes.Buffer).WriteString", "(*strings.Builder).WriteString", "(*bytes.Buffer).WriteByte":
-		libUsed[full] = "returns (n, err) with n >= 0 bytes written; writes nothing reachable from the verified state"
+		libUsed[full] = "returns (n, err) with n >= 0 bytes written; writes nothing reachable from the verified state; literal output is recorded in the ghost write log"
+		// ghost write log: a literal []byte("..") / string argument, or a verb-free literal format; anything else is an
+		// unknown entry (it still separates its neighbours)
+		entry := "?"
+		argi := 1
+		if full == "(io.Writer).Write" || strings.HasPrefix(full, "(*") {
+			argi = 0
+		}
+		if argi < len(call.Args) && (full != "fmt.Fprintf" || len(call.Args) == 2) {
+			a := unparen(call.Args[argi])
+			if conv, ok := a.(*ast.CallExpr); ok && len(conv.Args) == 1 {
+				if tv, ok := x.tv(conv.Fun); ok && tv.IsType() {
+					a = unparen(conv.Args[0])
+				}
+			}
+			if tv, ok := x.tv(a); ok && tv.Value != nil && tv.Value.Kind() == constant.String {
+				lit := constant.StringVal(tv.Value)
+				if full != "fmt.Fprintf" || !strings.Contains(lit, "%") {
+					entry = lit
+				}
+			}
+		}
+		if full != "(*bytes.Buffer).WriteByte" || true {
+			s.log = append(s.log, entry)
+		}
 		v := x.havocResults(s, call)
 		if len(v) >= 1 && v[0].S == SInt {
 			s.assume(Cmp("<=", IntLit(0), v[0]))
